@@ -194,7 +194,7 @@ def buildPid (n : Nat) (seen : List Nat) : List (Nat × Nat) := buildLoop n seen
 def maxTidStreams : Nat := 5
 
 def buildSpaces (n : Nat) (evs : List Ev) : List (Nat × List (Nat × Nat)) :=
-  (evs.foldl collect []).map (fun (p, seen) => (p, buildPid n seen))
+  (evs.foldl collect []).map (fun x => (x.1, buildPid n x.2))
 
 /-- `find_next_tid`: `self.tid_space[pid][tid]` -/
 def nextOf (sp : List (Nat × List (Nat × Nat))) (pid tid : Nat) : Option Nat :=
